@@ -329,6 +329,19 @@ pub fn run(ctx: &Ctx) -> i32 {
     let dir = work_dir();
     let mut programs: Vec<(String, String)> = corpus::load();
     programs.extend(super::c04_op_programs().into_iter().enumerate().map(|(i, p)| (format!("op-program-{i}"), p)));
+    // circuits with very many parties (a sole array parameter is one party per element): the second
+    // header line of the export grows with the number of parties
+    let many: Vec<(String, String)> = [
+        ("bool", 2100usize, "a[0] ^ a[2099]"),
+        ("u8", 2100, "a[0] ^ a[2099]"),
+        ("u16", 1400, "a[1] & a[1399]"),
+        ("u64", 1500, "a[3] | a[1499]"),
+        ("u8", 5000, "a[17] + a[4999]"),
+    ]
+    .iter()
+    .map(|(t, n, body)| (format!("crafted-{n}-parties-of-{t}"), format!("pub fn main(a: [{t}; {n}]) -> {t} {{ {body} }}\n")))
+    .collect();
+    programs.splice(0..0, many);
     let export_budget = 0.5;
     let results = par(WORKERS, |w| {
         let mut rng = Rng::derive(ctx.seed, 0x1100 + w as u64);
